@@ -10,7 +10,10 @@
 (*   "op"     constant `name` applied to ALL the children; `type` = type of the application                   *)
 (*   "all" / "exists"   binder of type `type` (name = variable name), one child = body                        *)
 (*   "app"    free function variable `name` applied to the children, `type` = type of the application         *)
+(*   "lam"    lambda abstraction: name = variable name, `type` = type of the bound variable, one child = body  *)
 (*   "other"  anything else (never judged)                                                                    *)
+(* An "op" node with fewer children than the constant takes arguments is a partial application; its `type`    *)
+(* is then the remaining function type.                                                                       *)
 (* Types are strings: "nat" "int" "real" "bool" "'a" "(A=>B)" "(A set)".                                      *)
 (*                                                                                                            *)
 (* Values: every first-order value is a rational <<p, q>> in normal form (Rat): numbers, booleans             *)
@@ -40,7 +43,13 @@
 (*     variables, a witness exists in  [min(V u {0}) - Tq, max(V u {0}) + Tq].  D is this interval (cut at 0  *)
 (*     for nat) united with the finite sub-domain.  The S machine C06_Bridge checks on its whole universe     *)
 (*     that doubling Tq (parameter w) changes no verdict.                                                     *)
-(*   * anything else (functions over nat, transcendental functions, lambda, ...) evaluates to "N".            *)
+(*   * FUNCTIONS.  A free variable of type A => B or A set (A in nat, int, real, 'a; B also bool) ranges over  *)
+(*     a finite family of genuine total functions: all functions on the carrier for A = 'a, and for a number   *)
+(*     type A all tables on the points {0, 1} with values in {0, 1} (or {F, T}), extended by the default       *)
+(*     value 0 (F) everywhere else.  Equality at a function type is EXTENSIONAL equality: exact between two    *)
+(*     such variables (equal tables) and over 'a (all points); between lambda terms / partial applications     *)
+(*     over a number type a differing sample point refutes it, agreement on the sample points decides nothing. *)
+(*   * anything else (transcendental functions, functions of two arguments, ...) evaluates to "N".             *)
 (* Refuted(goal | prems): some assignment of the free variables (nat 0..n, int -n..n, real on RealGrid,       *)
 (* bool, 'a in carriers of size 1 and 2, predicates / sets / functions over 'a: all of them) makes every      *)
 (* premise "T" and the goal "F".  Free variables are universally quantified, so such an assignment is a       *)
@@ -71,7 +80,8 @@ Impl(a, b) == Op2("implies", "bool", a, b)
 Iff(a, b) == Op2("equals", "bool", a, b)
 Rel(r, a, b) == Op2(r, "bool", a, b)
 IsQ(t) == t[1] \in {"all", "exists"}
-IsBoolNode(t) == IsQ(t) \/ t[3] = "bool"
+IsBoolNode(t) == IsQ(t) \/ (t[1] # "lam" /\ t[3] = "bool")
+IsBinder(t) == t[1] \in {"all", "exists", "lam"}
 Rels == {"less", "less_eq", "greater", "greater_eq", "equals"}
 Conns == {"neg", "conj", "disj", "implies"}
 
@@ -106,7 +116,7 @@ Size(t) == IF Len(t[5]) = 0 THEN 1
            ELSE 1000
 \* does t mention a bound variable whose index (relative to t) is in act
 Mentions(t, act) == IF t[1] = "bound" THEN t[4] \in act
-                    ELSE IF IsQ(t) THEN Mentions(t[5][1], { i + 1 : i \in act })
+                    ELSE IF IsBinder(t) THEN Mentions(t[5][1], { i + 1 : i \in act })
                     ELSE \E i \in 1..Len(t[5]) : Mentions(t[5][i], act)
 \* sides of a difference atom
 IsIV(s) == s[1] \in {"var", "bound"} /\ s[3] \in IntT
@@ -128,14 +138,22 @@ DOC(f, act) == IF ~Mentions(f, act) THEN TRUE
 \* ---------------------------------------------------------------- domains
 Carrier(k) == { <<i, 1>> : i \in 1..k }
 FirstOrderT == {"nat", "int", "real", "bool", "'a"}
-FunT == {"('a=>bool)", "('a set)", "('a=>'a)"}
+DomT == {"nat", "int", "real", "'a"}
+FunTab == { <<"(" \o A \o "=>" \o B \o ")", A, B>> : A \in DomT, B \in DomT \cup {"bool"} }
+          \cup { <<"(" \o A \o " set)", A, "bool">> : A \in DomT }
+FunT == { x[1] : x \in FunTab }
+SigOf(T) == CHOOSE x \in FunTab : x[1] = T              \* <<T, argument type, result type>>
+DefaultOf(B) == IF B = "'a" THEN <<1, 1>> ELSE <<0, 1>>    \* 0 / FF / the first element
+TabDom(A, P) == IF A = "'a" THEN { <<i, 1>> : i \in 1..P.k } ELSE { <<0, 1>>, <<1, 1>> }
+TabRng(B, P) == IF B = "'a" THEN { <<i, 1>> : i \in 1..P.k } ELSE { <<0, 1>>, <<1, 1>> }
+\* value of the function fv :: A => B (a table) at the point a
+AppVal(fv, B, a) == IF a \in DOMAIN fv THEN fv[a] ELSE DefaultOf(B)
 VDom(T, P) == CASE T = "nat" -> { <<i, 1>> : i \in 0..P.n }
                 [] T = "int" -> { <<i, 1>> : i \in (-P.n)..P.n }
                 [] T = "real" -> RealGrid
                 [] T = "bool" -> {FF, TT}
                 [] T = "'a" -> Carrier(P.k)
-                [] T \in {"('a=>bool)", "('a set)"} -> [Carrier(P.k) -> {FF, TT}]
-                [] T = "('a=>'a)" -> [Carrier(P.k) -> Carrier(P.k)]
+                [] T \in FunT -> LET sg == SigOf(T) IN [TabDom(sg[2], P) -> TabRng(sg[3], P)]
                 [] OTHER -> {}
 BeInts(be) == { be[i][1] : i \in { j \in 1..Len(be) : be[j][2] = 1 } }
 \* Witness bound of a binder of integer type with this body: Tq when the body is a difference formula in the
@@ -174,7 +192,33 @@ QD(T, tq0, be, P) ==
 \* va : free variable name -> value;  be : values of the bound variables, innermost first;
 \* P = [n, w, k, iv] : bound of the finite sub-domains, witness multiplier, size of the carrier of 'a,
 \*                     integer values of the free variables
-RECURSIVE Val(_, _, _, _), Ev(_, _, _, _)
+FnTypeOf(t) == IF Len(t[5]) = 1 /\ t[5][1][1] # "lam" THEN "(" \o t[5][1][3] \o "=>" \o t[3] \o ")" ELSE "?"
+\* type of a node (binders of formulas are bool, a lambda has the function type)
+RECURSIVE NodeType(_)
+NodeType(t) == IF IsQ(t) THEN "bool"
+               ELSE IF t[1] = "lam" THEN (IF Len(t[5]) = 1 THEN "(" \o t[3] \o "=>" \o NodeType(t[5][1]) \o ")" ELSE "?")
+               ELSE t[3]
+\* loose bound variables >= c shifted up by one (the term is moved under one more binder)
+RECURSIVE Lift(_, _)
+Lift(t, c) == IF t[1] = "bound" THEN (IF t[4] >= c THEN <<t[1], t[2], t[3], t[4] + 1, <<>>>> ELSE t)
+              ELSE IF Len(t[5]) = 0 THEN t
+              ELSE LET c2 == IF IsBinder(t) THEN c + 1 ELSE c IN
+                   IF Len(t[5]) = 1 THEN <<t[1], t[2], t[3], t[4], <<Lift(t[5][1], c2)>>>>
+                   ELSE IF Len(t[5]) = 2 THEN <<t[1], t[2], t[3], t[4], <<Lift(t[5][1], c2), Lift(t[5][2], c2)>>>>
+                   ELSE IF Len(t[5]) = 3 THEN <<t[1], t[2], t[3], t[4], <<Lift(t[5][1], c2), Lift(t[5][2], c2), Lift(t[5][3], c2)>>>>
+                   ELSE <<"other", "", "?", 0, <<>>>>
+RECURSIVE Val(_, _, _, _), Ev(_, _, _, _), ApplyF(_, _, _, _, _, _)
+\* value of the function-typed term t :: FT applied to the point d
+ApplyF(t, FT, d, va, be, P) ==
+  LET sg == SigOf(FT)  A == sg[2]  B == sg[3]  n == Len(t[5])  arg == <<"bound", "", A, 0, <<>>>>
+      res(u) == IF B = "bool" THEN (LET b == Ev(u, va, <<d>> \o be, P) IN IF b = "T" THEN TT ELSE IF b = "F" THEN FF ELSE NAV)
+                ELSE Val(u, va, <<d>> \o be, P) IN
+  CASE t[1] = "var" -> IF t[2] \in DOMAIN va THEN AppVal(va[t[2]], B, d) ELSE NAV
+    [] t[1] = "lam" /\ n = 1 -> res(t[5][1])
+    [] t[1] = "op" /\ n = 0 -> res(<<"op", t[2], B, 0, <<arg>>>>)
+    [] t[1] = "op" /\ n = 1 -> res(<<"op", t[2], B, 0, <<Lift(t[5][1], 0), arg>>>>)
+    [] t[1] = "op" /\ n = 2 -> res(<<"op", t[2], B, 0, <<Lift(t[5][1], 0), Lift(t[5][2], 0), arg>>>>)
+    [] OTHER -> NAV
 Val(t, va, be, P) ==
   LET kd == t[1]  nm == t[2]  T == t[3]  as == t[5]  na == Len(t[5])
       a1 == Val(as[1], va, be, P)
@@ -183,8 +227,7 @@ Val(t, va, be, P) ==
   CASE kd = "num" -> IF T \in NumT /\ t[4] >= 0 THEN RInt(t[4]) ELSE NAV
     [] kd = "var" -> IF T \in FirstOrderT /\ nm \in DOMAIN va THEN va[nm] ELSE NAV
     [] kd = "bound" -> IF t[4] >= 0 /\ t[4] < Len(be) THEN be[t[4] + 1] ELSE NAV
-    [] kd = "app" -> IF na = 1 /\ nm \in DOMAIN va /\ as[1][3] = "'a" /\ T \in {"bool", "'a"}
-                     THEN (IF a1 \in DOMAIN va[nm] THEN va[nm][a1] ELSE NAV) ELSE NAV
+    [] kd = "app" -> IF na = 1 /\ nm \in DOMAIN va /\ FnTypeOf(t) \in FunT /\ ~RIsOvf(a1) THEN AppVal(va[nm], T, a1) ELSE NAV
     [] kd = "op" ->
          (CASE nm = "plus" /\ na = 2 /\ T \in NumT -> Fit(T, RAdd(a1, a2))
             [] nm = "times" /\ na = 2 /\ T \in NumT -> Fit(T, RMul(a1, a2))
@@ -226,9 +269,17 @@ Ev(f, va, be, P) ==
             [] nm = "xor" /\ na = 2 -> Not3(Iff3(Ev(as[1], va, be, P), Ev(as[2], va, be, P)))
             [] nm = "equals" /\ na = 2 ->
                  IF IsBoolNode(as[1]) THEN Iff3(Ev(as[1], va, be, P), Ev(as[2], va, be, P))
-                 ELSE IF as[1][3] \in FirstOrderT
+                 ELSE IF as[1][1] # "lam" /\ as[1][3] \in FirstOrderT
                  THEN LET a == Val(as[1], va, be, P)  b == Val(as[2], va, be, P) IN
                       IF RIsOvf(a) \/ RIsOvf(b) THEN "N" ELSE IF a = b THEN "T" ELSE "F"
+                 ELSE IF NodeType(as[1]) \in FunT /\ NodeType(as[2]) = NodeType(as[1])
+                 THEN LET FT == NodeType(as[1])  A == SigOf(FT)[2]  a == as[1]  b == as[2] IN
+                      IF a[1] = "var" /\ b[1] = "var"
+                      THEN (IF a[2] \in DOMAIN va /\ b[2] \in DOMAIN va THEN (IF va[a[2]] = va[b[2]] THEN "T" ELSE "F") ELSE "N")
+                      ELSE LET pts == IF A = "'a" THEN Carrier(P.k) ELSE VDom(A, P)
+                               rs == { LET x == ApplyF(a, FT, d, va, be, P)  y == ApplyF(b, FT, d, va, be, P) IN
+                                       IF RIsOvf(x) \/ RIsOvf(y) THEN "N" ELSE IF x = y THEN "T" ELSE "F" : d \in pts } IN
+                           IF "F" \in rs THEN "F" ELSE IF A = "'a" /\ rs = {"T"} THEN "T" ELSE "N"
                  ELSE "N"
             [] nm \in {"less", "less_eq", "greater", "greater_eq"} /\ na = 2 ->
                  IF as[1][3] \notin NumT THEN "N"
@@ -239,8 +290,8 @@ Ev(f, va, be, P) ==
             [] nm = "member" /\ na = 2 ->
                  LET x == Val(as[1], va, be, P)  S == as[2] IN
                  IF RIsOvf(x) THEN "N"
-                 ELSE IF S[1] = "var" /\ S[3] = "('a set)" /\ as[1][3] = "'a" /\ S[2] \in DOMAIN va
-                 THEN (IF x \in DOMAIN va[S[2]] THEN (IF va[S[2]][x] = TT THEN "T" ELSE "F") ELSE "N")
+                 ELSE IF S[1] = "var" /\ S[3] = "(" \o as[1][3] \o " set)" /\ S[3] \in FunT /\ S[2] \in DOMAIN va
+                 THEN (IF AppVal(va[S[2]], "bool", x) = TT THEN "T" ELSE "F")
                  ELSE IF S[1] = "op" /\ S[2] \in {"real_closed_interval", "real_open_interval"} /\ Len(S[5]) = 2 /\ as[1][3] = "real"
                  THEN LET c1 == RCmp(Val(S[5][1], va, be, P), x)  c2 == RCmp(x, Val(S[5][2], va, be, P)) IN
                       IF c1 = 2 \/ c2 = 2 THEN "N"
@@ -264,7 +315,6 @@ Ev(f, va, be, P) ==
 
 \* ---------------------------------------------------------------- free variables and refutation
 RECURSIVE FV(_)
-FnTypeOf(t) == IF Len(t[5]) = 1 THEN "(" \o t[5][1][3] \o "=>" \o t[3] \o ")" ELSE "?"
 FV(t) == (IF t[1] = "var" THEN {<<t[2], t[3]>>} ELSE IF t[1] = "app" THEN {<<t[2], FnTypeOf(t)>>} ELSE {})
          \cup UNION { FV(t[5][i]) : i \in 1..Len(t[5]) }
 RECURSIVE HasKind(_, _), TypesIn(_)
@@ -293,7 +343,7 @@ RECURSIVE SetToSeqC(_)
 SetToSeqC(S) == IF S = {} THEN <<>> ELSE LET x == CHOOSE y \in S : TRUE IN <<x>> \o SetToSeqC(S \ {x})
 NoVA == ("!" :> FF)                      \* the empty assignment (a string-keyed function)
 UsesTyVar(goal, prems) == \E T \in TypesIn(goal) \cup UNION { TypesIn(prems[i]) : i \in 1..Len(prems) } :
-                             T \in {"'a"} \cup FunT
+                             T = "'a" \/ (T \in FunT /\ (SigOf(T)[2] = "'a" \/ SigOf(T)[3] = "'a"))
 \* the set of truth values of  prems |- goal  over all assignments (carriers of size 1 and 2 for 'a)
 Outcomes(goal0, prems0, n, w) ==
   LET goal == Prep(goal0)
